@@ -1,0 +1,24 @@
+//! Verification hook (only compiled with `--cfg yamaquasi_verif`): schedule perturbation.
+//!
+//! `yield_point(site)` is called before each acquisition of a relation-store lock and
+//! before each completion-flag check of the multi-threaded loops.  It does nothing unless
+//! a test harness installs a callback, which may yield, spin or sleep to widen the set of
+//! thread interleavings that are explored.
+
+use std::sync::atomic::{AtomicUsize, Ordering};
+
+static YIELD_FN: AtomicUsize = AtomicUsize::new(0);
+
+/// Install (or remove, with `None`) the callback invoked at every yield point.
+pub fn set_yield_fn(f: Option<fn(u32)>) {
+    YIELD_FN.store(f.map(|f| f as usize).unwrap_or(0), Ordering::SeqCst);
+}
+
+#[inline]
+pub fn yield_point(site: u32) {
+    let p = YIELD_FN.load(Ordering::Relaxed);
+    if p != 0 {
+        let f: fn(u32) = unsafe { std::mem::transmute::<usize, fn(u32)>(p) };
+        f(site);
+    }
+}
